@@ -38,7 +38,10 @@ pub fn datasets(tier: &str) -> Vec<(String, Vec<(usize, Row)>)> {
     // 30 rows with distinct keys: with one row per zone there are more flushed zones than any
     // top-k pre-selection sized from a small LIMIT keeps, so that large OFFSETs matter
     let many: Vec<(usize, Row)> = (0..30).map(|i| mk(100 + i, if i % 2 == 0 { "c0" } else { "c1" }, (i * 7) % 30, i as f64, &format!("s{:02}", (i * 11) % 30), Some(i), 1700001000 + ((i * 13) % 30) * 10)).collect();
-    let mut out = vec![("seven".to_string(), base.clone()), ("thirty".to_string(), many)];
+    // integer keys above 2^53 that differ by less than one f64 ulp, spread over contexts (shards)
+    // and stored in an order that disagrees with the key order
+    let big: Vec<(usize, Row)> = [5i64, 1, 7, 3, 0, 6, 2, 4].iter().enumerate().map(|(i, d)| mk(200 + i as i64, ["c0", "c1", "c2"][i % 3], 1_700_000_000_000_000_000 + d, i as f64, &format!("t{i}"), Some(-(1i64 << 60) + 3 * d), 1700002000 + i as i64)).collect();
+    let mut out = vec![("seven".to_string(), base.clone()), ("thirty".to_string(), many), ("bigkeys".to_string(), big)];
     if tier != "quick" {
         out.push(("first3".to_string(), base[..3].to_vec()));
         out.push(("one".to_string(), base[..1].to_vec()));
@@ -68,7 +71,15 @@ fn as_text(v: &Value) -> String {
 fn typed_cmp(field: &str, a: &Value, b: &Value) -> Ordering {
     match field {
         "s" => as_text(a).cmp(&as_text(b)),
-        _ => a.as_f64().unwrap_or(f64::NAN).partial_cmp(&b.as_f64().unwrap_or(f64::NAN)).unwrap_or(Ordering::Equal),
+        _ => {
+            // integers are compared exactly (keys above 2^53 differ by less than an f64 ulp)
+            let ai = a.as_i64().map(|x| x as i128).or(a.as_u64().map(|x| x as i128));
+            let bi = b.as_i64().map(|x| x as i128).or(b.as_u64().map(|x| x as i128));
+            match (ai, bi) {
+                (Some(x), Some(y)) => x.cmp(&y),
+                _ => a.as_f64().unwrap_or(f64::NAN).partial_cmp(&b.as_f64().unwrap_or(f64::NAN)).unwrap_or(Ordering::Equal),
+            }
+        }
     }
 }
 
@@ -83,6 +94,7 @@ fn key_str(v: Option<&Value>) -> String {
     match v {
         None | Some(Value::Null) => "<null>".into(),
         Some(Value::String(s)) => format!("s:{s}"),
+        Some(n) if n.as_i64().map_or(false, |x| x.unsigned_abs() > (1u64 << 53)) => format!("n:{n}"),
         Some(n) => format!("n:{}", n.as_f64().map(|f| f.to_string()).unwrap_or(n.to_string())),
     }
 }
